@@ -281,6 +281,12 @@ def splice_item(item, contracts, unit_name, used, canaries):
     fninfo = {f["name"]: f for f in item["fns"]}
 
     # ---- traits: ghost members after the opening brace; contracts on body-less method declarations before the `;`
+    if item["kind"] == "impl":
+        # `@trait <Trait> for <Type>`: ghost members (spec fns of the trait) after the impl's opening brace
+        for pth, d in TRAIT_INSERTS.items():
+            if item["name"] in d and pth.startswith(os.path.join(VERIF, "units", unit_name) + os.sep):
+                ob = text.find("{")
+                text = text[:ob + 1] + "\n" + _block(f"{unit_name}|{item['name']}|trait|0", d[item["name"]]) + text[ob + 1:]
     if item["kind"] == "trait":
         tins = None
         for pth, d in TRAIT_INSERTS.items():
